@@ -1122,6 +1122,13 @@ impl<'tcx> Dumper<'tcx> {
                         }
                     }
                     o.put("ty", self.ty(tcx.type_of(d).instantiate_identity().skip_norm_wip()));
+                    // the initialiser's MIR: struct / enum valued constants are evaluated symbolically from it
+                    if matches!(tcx.def_kind(d), DefKind::Const { .. } | DefKind::AssocConst { .. }) && tcx.is_mir_available(d) || true {
+                        let body = tcx.mir_for_ctfe(d);
+                        let mut b = self.body(body, d);
+                        b.put("promoted", J::Arr(Vec::new()));
+                        o.put("body", b);
+                    }
                 }
                 consts.push(o);
             }
